@@ -145,6 +145,8 @@ pub struct AnalysisResult {
     pub needs_undo: BTreeSet<TransactionId>,
     /// Transactions that need to be redo
     pub needs_redo: BTreeSet<TransactionId>,
+    /// Transactions whose END record is in the log
+    pub ended: BTreeSet<TransactionId>,
     /// Map of the last lsn for each transaction.
     pub lsn_chains: BTreeMap<TransactionId, Vec<Lsn>>,
     /// Map from transaction ID to its last LSN
@@ -224,7 +226,9 @@ impl WriteAheadLog {
                     result.needs_redo.remove(&tid);
                     result.needs_undo.insert(tid);
                 }
-                RecordType::End => {}
+                RecordType::End => {
+                    result.ended.insert(tid);
+                }
                 RecordType::Delete => {
                     let undo_content = Box::from(record.undo_payload());
                     let oid = record
